@@ -56,7 +56,23 @@ func (w *World) NewProgSet(sp *ProgSpec, name, loaderKind string) *pongo2.Templa
 	if !sp.NoGlobals {
 		set.Globals["glob"] = "G<" + name + ">"
 	}
+	set.Debug = sp.DebugSet
 	return set
+}
+
+// blockSel varies the list of block names an ExecuteBlocks call asks for: all of them, the
+// first one only, or the last one plus a name no template defines.
+func blockSel(blocks []string, sel int) []string {
+	if len(blocks) == 0 {
+		return blocks
+	}
+	switch sel % 3 {
+	case 1:
+		return blocks[:1]
+	case 2:
+		return []string{blocks[len(blocks)-1], "no_such_block"}
+	}
+	return blocks
 }
 
 // reuseBuffer: the []byte handed to FromBytes / RenderTemplateBytes stays the caller's, who
